@@ -1088,7 +1088,9 @@ func main() {
 		t := time.Now()
 		st := seqx.Explore(r, seqx.Scenario[event]{Name: hs.name, Enabled: hs.enabled,
 			Exec:     func(h []event) (string, string, *seqx.Failure) { return hs.exec(r, h, note) },
-			MaxDepth: hs.depth, Workers: 16})
+			MaxDepth: hs.depth, Workers: 16,
+			// every history of length <= 5 (the whole quick tier) is executed whatever the canonical key says
+			NoMergeDepth: 4})
 		fmt.Printf("  %-34s depth %d/%d states %d transitions %d  %.1fs\n", hs.name, st.DepthCompleted, hs.depth, st.States, st.Transitions, time.Since(t).Seconds())
 		r.Set("histories_bounds", map[string]any{"depth_bound": hs.depth, "depth_completed": st.DepthCompleted, "traces": hs.ids, "size_classes": hs.sizes, "max_spans_per_trace": hs.maxSpans, "advance": (timeout / 4).String(), "max_advances": hs.maxAdv})
 	}
